@@ -59,9 +59,9 @@ class ExprArraySubscriptModel(ExprModel):
     def val(self):
         index = int(self.rhs.val())
         if isinstance(self.lhs, ExprFieldRefModel):
-            return self.lhs.fm.field_l[index].val
+            return ExprFieldRefModel.field_val(self.lhs.fm.field_l[index])
         else:
-            return self.subscript().val
+            return ExprFieldRefModel.field_val(self.subscript())
         
     def getFieldModel(self):
         index = int(self.rhs.val())
